@@ -7,6 +7,8 @@ from .c01 import C01
 
 class C10(ChanSpec):
     id = "C10"
+    # payloads beyond 65536 bytes make long protocol lines: the thorough tier explores fewer scenarios than the other channel properties
+    budgets = dict(quick=ChanSpec.budgets["quick"], thorough=(400, 20, 20, 3, 1000))
     design_ref = "DESIGN.md §6 C10 (Chan LTS)"
     technique = "Lean 4 proof (ownership invariant over a heap of buffers: what the channel holds keeps its call-time content whatever callers and pool users scribble; wire = call-time payloads in order) + monitored executions of the real channel in which callers overwrite their buffers right after every call and a foreign pool user scribbles on pooled buffers of every size class"
     level_text = ("Lean 4 theorems over the Chan LTS: the wire is always a prefix of the accepted payload *values* fixed at the acceptance step and no later step changes an accepted value. "
